@@ -37,6 +37,17 @@ def _h(s):
     return hashlib.sha256(s.encode("utf8", "surrogatepass")).hexdigest()[:12]
 
 
+# documents whose target names differ from the ids docutils derives from them (refid must be the id, not the name),
+# footnotes in every state (referenced / unreferenced / numbered / named / sorted or not)
+EXTRA_DOCS = [
+    "(My Target)=\n\n# Some Heading\n\n[x](#my%20target) [y](#My%20Target) [z](#some-heading) [](#my%20target)\n",
+    "(a.b c)=\npara\n\n[x](#a.b%20c) [](#a.b%20c) [n](#nope)\n\nTerm X\n: def\n\n(t2)=\nTerm Y\n: def\n\n[](#t2)\n",
+    "[^b] [^a] [^2] [^1] [^zz]\n\n[^a]: A\n[^b]: B\n[^1]: one\n[^2]: two\n[^c]: unreferenced\n",
+    "> [^q]\n\n- item [^q]\n\n[^q]: > quoted\n\n    - list in note\n\n{#X_y}\n> (In Quote)=\n> [l](#in%20quote) [m](#x-y) [k](#X_y)\n",
+    ":field one: [v](#f%20two)\n\n(f two)=\n:other: body\n",
+]
+
+
 def corr_cases(ctx):
     from gen import c02_docgen as G
     from gen import c02_lib as L
@@ -45,6 +56,10 @@ def corr_cases(ctx):
     for text in G.SEED_DOCS:
         yield "seed", {"text": text, "mode": "myst", "exts": list(L.STATIC_EXTS), "backend": "docutils"}
         yield "seed", {"text": text, "mode": "myst", "exts": list(L.STATIC_EXTS), "backend": "sphinx"}
+    for text in EXTRA_DOCS:
+        for backend in ("docutils", "sphinx"):
+            for kw in ({}, {"footnote_sort": False}):
+                yield "extra", {"text": text, "mode": "myst", "exts": list(L.STATIC_EXTS), "backend": backend, "kw": kw}
     for w in S.FIXED_WITNESSES:
         c = S.normalise_case(dict(w))
         yield "witness", {"text": c["text"], "mode": c["mode"], "exts": list(c["exts"]), "backend": c["backend"],
